@@ -11,6 +11,11 @@ def dispatch (op : String) (payload : Json) : R Json :=
   | "cli_merge" => C20.handle payload
   | "names" => C10.handle payload
   | "locator" => C13.handle payload
+  | "cache_gate" => C19.handleGate payload
+  | "cache_history" => C19.handleHistory payload
+  | "ser" => C18.handleSer payload
+  | "structure" => C18.handleStructure payload
+  | "imports" => C12.handle payload
   | _ => .error s!"unknown op {op}"
 
 partial def loop (h : IO.FS.Stream) (out : IO.FS.Stream) : IO Unit := do
